@@ -2,7 +2,7 @@
     The int16 output is the half-even rounding ([frne], at R: [rneR]) of the curve named below. *)
 From Coq Require Import ZArith Reals Lra List.
 From HDC Require Import Base.Prelude Base.Ops Model.Ws2d Model.Smoothers Proofs.RSums Proofs.Penalty Proofs.Ws2dReal
-     Proofs.Rounding Proofs.SmoothersProofs.
+     Proofs.Rounding Proofs.SmoothersProofs Proofs.Expectile Proofs.ExpectileModel.
 Open Scope R_scope.
 
 (** symmetric smoother, lambda > 0, >= 2 valid cells: the curve is the unique minimiser of the
@@ -54,6 +54,32 @@ Theorem C03_asym_fit_fixed_point : forall p lam (w y : list R),
    asym_fit OpsR p lam w y = ws2d OpsR y lam (asym_weights OpsR p p1 w y (asym_fit OpsR p lam w y))).
 Proof. exact asym_fit_fixed_point. Qed.
 Print Assumptions C03_asym_fit_fixed_point.
+
+(** a curve the reweighting leaves unchanged is the expectile curve: the unique minimiser of
+    sum_i w_i (p if y_i > z_i else 1 - p) (y_i - z_i)^2 + lam |D2 z|^2 over all curves *)
+Theorem C03_fixed_point_is_expectile : forall p lam (w y z : list R),
+  0 < p < 1 -> 0 < lam -> (4 <= length y)%nat -> length w = length y -> length z = length y ->
+  (forall i, (0 <= i < Z.of_nat (length y))%Z -> 0 <= atl w i) ->
+  (exists a b, (0 <= a < b)%Z /\ (b < Z.of_nat (length y))%Z /\ 0 < atl w a /\ 0 < atl w b) ->
+  z = ws2d OpsR y lam (asym_weights OpsR p (1 - p) w y z) ->
+  forall z', length z' = length y ->
+    expectile_objective p y w lam z <= expectile_objective p y w lam z' /\
+    (expectile_objective p y w lam z' = expectile_objective p y w lam z -> z' = z).
+Proof. exact fixed_point_is_expectile. Qed.
+Print Assumptions C03_fixed_point_is_expectile.
+
+(** so whenever the model's loop stopped on an unchanged pass, what ws2dpgu rounds is the expectile curve *)
+Theorem C03_asym_fit_is_expectile : forall p lam (w y : list R),
+  0 < p < 1 -> 0 < lam -> (4 <= length y)%nat -> length w = length y ->
+  (forall i, (0 <= i < Z.of_nat (length y))%Z -> 0 <= atl w i) ->
+  (exists a b, (0 <= a < b)%Z /\ (b < Z.of_nat (length y))%Z /\ 0 < atl w a /\ 0 < atl w b) ->
+  let '(ww, z) := irls OpsR 10 p (1 - p) lam w y (zeros OpsR (length y)) (zeros OpsR (length y)) in
+  ww = asym_weights OpsR p (1 - p) w y z ->
+  forall z', length z' = length y ->
+    expectile_objective p y w lam (asym_fit OpsR p lam w y) <= expectile_objective p y w lam z' /\
+    (expectile_objective p y w lam z' = expectile_objective p y w lam (asym_fit OpsR p lam w y) -> z' = asym_fit OpsR p lam w y).
+Proof. exact asym_fit_is_expectile. Qed.
+Print Assumptions C03_asym_fit_is_expectile.
 
 Example C03_example :
   rneR (5 / 2) = 2%Z /\ rneR (7 / 2) = 4%Z /\ rneR (- (5 / 2)) = (-2)%Z.
